@@ -11,7 +11,12 @@ RULE = ('every BaseException subclass found in builtins, constructed with repres
         'configurable calls (functions and classes), inside scopes, and while Gin evaluates a reference for a consumer; the caught object is compared '
         'with the original kept by the probe: class identity by name/module/qualname, a real except clause for every class of the MRO, every public '
         'non-callable attribute, the traceback (raising frame present), the message (original text + one "In call to configurable" per level); '
-        'non-Exception BaseExceptions must pass through untouched. distinct = (exception class, depth, raise site)')
+        'non-Exception BaseExceptions must pass through untouched. Also: the TypeError of the interpreter for a call with missing / surplus arguments '
+        '(compared with the same call of the undecorated function), TypeErrors raised by a body whose call leaves parameters unbound (diagnostics branch), '
+        'configurable classes raising in __new__, subclasses of configurable / registered classes, gin.singleton constructors, macros resolving to a raising '
+        'reference; scopes entered outside, by the bodies between the levels (incl. clearing) and at the reference site; exceptions carrying notes, an implicit '
+        '__context__, callable attributes, attributes served by __getattr__, nested values; the same instance raised through two calls. The expected data is a '
+        'snapshot taken when the exception is created. distinct = (exception class, depth, raise site, modifiers)')
 TIERS = {
     'quick': {'workers': 8, 'cases': 1800, 'timeout': 600},
     'thorough': {'workers': 16, 'cases': 8000, 'timeout': 3000},
@@ -20,7 +25,11 @@ REQUIRED_BUCKETS = ['cls:OSError-family', 'cls:StopIteration', 'cls:UnicodeError
                     'cls:ExceptionGroup', 'cls:user-init-args', 'cls:user-new-args', 'cls:user-extra-attrs', 'cls:user-slots', 'cls:user-property',
                     'cls:user-custom-str', 'cls:user-multiple-inheritance', 'cls:user-shadowed-class-attr', 'cls:user-group-subclass', 'cls:BaseException-passthrough',
                     'cls:user-new-raises-on-reconstruction', 'cls:user-new-is-a-factory', 'cls:user-init-subclass-hook', 'cls:explicit-cause', 'depth:1', 'depth:4', 'site:function', 'site:class-constructor', 'site:reference-evaluation', 'site:scoped', 'site:method', 'site:hostile-signature',
-                    'cls:user-new-sets-state', 'cls:message-ends-with-whitespace', 'cls:TypeError-subclass']
+                    'cls:user-new-sets-state', 'cls:message-ends-with-whitespace', 'cls:TypeError-subclass',
+                    'cls:user-callable-attrs', 'cls:user-getattr-served', 'cls:user-nested-values',
+                    'site:missing-argument', 'site:diagnostics-branch', 'site:class-new-raises', 'site:subclass-of-configurable', 'site:singleton-constructor',
+                    'site:macro-to-raising-reference', 'scope:single-component', 'scope:per-level-differs', 'scope:cleared-inside', 'scope:at-reference-site',
+                    'mod:notes', 'mod:implicit-context', 'mod:same-instance-twice']
 ORACLE_COUNTERS = ['oracle_evals', 'exceptions_compared', 'attributes_compared', 'except_clauses_tried']
 _S = {}
 
@@ -191,6 +200,57 @@ class UFinal(Exception):
     raise RuntimeError('UFinal is final')
 
 
+def _a_handler(exc):
+  return 'handled %r' % (exc,)
+
+
+_SINK = []
+
+
+class UCallback(Exception):
+  """Public attributes that are callable: a callback, an expected type, a plain function, a bound method of another object."""
+
+  def __init__(self, msg):
+    super().__init__(msg)
+    self.callback = len
+    self.expected = int
+    self.handler = _a_handler
+    self.sink = _SINK.append
+
+
+class UDynamic(Exception):
+  """Public attributes served by the class's own __getattr__ (not in dir(); the monitor learns the names from PROBE)."""
+  PROBE = ('status', 'retry_after', 'headers')
+
+  def __init__(self, msg, **fields):
+    super().__init__(msg)
+    self._fields = fields
+
+  def __getattr__(self, name):
+    fields = self.__dict__.get('_fields', {})
+    if name.startswith('_') or name not in fields:
+      raise AttributeError(name)
+    return fields[name]
+
+
+class UDynamicDir(UDynamic):
+  """... and listed by the class's own __dir__."""
+  PROBE = ()
+
+  def __dir__(self):
+    return list(super().__dir__()) + list(self.__dict__.get('_fields', {}))
+
+
+class UNested(Exception):
+  """Nested values whose inner types matter (1 / 1.0 / True compare equal)."""
+
+  def __init__(self, msg):
+    super().__init__(msg, (1, 2.0, True))
+    self.shape = (1, 2.0, True)
+    self.table = {1: 'int-key', 'k': (1, [2.5, None, False]), 'z': {'deep': [0, 0.0]}}
+    self.flags = frozenset({1, 'a'})
+
+
 # classes nobody can subclass at raise time: the message cannot be extended without changing the class; class, data and traceback still hold
 NO_MESSAGE_EXTENSION = (UInitSubclassKw, UFinal)
 
@@ -273,41 +333,92 @@ def builtin_instances():
       ('cls:explicit-cause', lambda: chained(ValueError('bad'), KeyError('k'))),
       ('cls:explicit-cause', lambda: chained(UAttrs('bad value', 3), None)),
       ('cls:explicit-cause', lambda: chained(OSError(2, 'No such thing', '/x'), UBase('base cause'))),
+      ('cls:user-callable-attrs', lambda: UCallback('cb')),
+      ('cls:user-getattr-served', lambda: UDynamic('dyn', status=503, retry_after=2.5, headers={'x': [1, 2]})),
+      ('cls:user-getattr-served', lambda: UDynamicDir('dyn-dir', status=404, reason=('gone', 1))),
+      ('cls:user-nested-values', lambda: UNested('nested')),
   ]
   return out
 
 
+NOTES = ['c17 note one (context added by the raiser)', 'c17 note two\nwith a second line']
+CONTEXT_KEY = 'c17-missing-key'
+SITES = ['direct', 'direct', 'scoped', 'reference', 'reference', 'method', 'hostile-signature', 'diagnostics', 'missing-argument', 'new-raises', 'subclass',
+         'singleton', 'macro']
+CHAIN_SITES = ('direct', 'scoped', 'reference', 'singleton', 'macro')
+
+
+def last_line(code):
+  """Line of the last statement of a code object (the bodies of the probes consist of one statement)."""
+  return max(l for (_, _, l) in code.co_lines() if l)
+
+
+def rec(call, name, *bodies):
+  """A configurable probe: how to call it, its registered name, and the frames (co_name, line of the statement that calls down / raises) of the bodies
+  that run between the caller and the raise site, outermost first (computed from the code objects of the undecorated functions)."""
+  return {'call': call, 'name': name, 'frames': [(b.__code__.co_name, last_line(b.__code__)) for b in bodies]}
+
+
 def setup(ctx):
+  import functools
   import gin
-  state = {'exc': None, 'depth': 0}
+  state = {'exc': None, 'enter': {}, 'implicit': False}
   _S['state'] = state
 
   def innermost():
     e = state['exc']
+    if state['implicit']:
+      try:
+        {}[CONTEXT_KEY]
+      except KeyError:
+        raise e          # inside a handler: the exception gets an implicit __context__
     raise e
 
-  @gin.configurable('c17f1', module='c17')
+  # the line numbers of the two raise statements, learnt from CPython itself (no gin involved)
+  lines = {}
+  for implicit in (False, True):
+    state['exc'], state['implicit'] = RuntimeError('calibration'), implicit
+    try:
+      innermost()
+    except RuntimeError as ce:
+      lines[implicit] = traceback.extract_tb(ce.__traceback__)[-1].lineno
+  state['exc'], state['implicit'] = None, False
+  _S['raise_line'] = lines
+
+  levels = {}
+
+  def down(i):
+    """Call level i, inside the scope the case wants the calling body to open (None: none, '': clear the active scopes)."""
+    sc = state['enter'].get(str(i))
+    if sc is None:
+      return levels[i]['call']()
+    with gin.config_scope(sc or None):
+      return levels[i]['call']()
+
   def f1(p=0):
     innermost()
 
-  @gin.configurable('c17f2', module='c17')
   def f2(p=0):
-    f1()
+    down(1)
 
-  @gin.configurable('c17C3', module='c17')
   class C3:
     def __init__(self, p=0):
-      f2()
+      down(2)
 
-  @gin.register('c17f4', module='c17')
   def f4(p=0):
-    C3()
+    down(3)
+
+  c3_init = C3.__init__
+  levels[1] = rec(gin.configurable('c17f1', module='c17')(f1), 'c17f1', f1)
+  levels[2] = rec(gin.configurable('c17f2', module='c17')(f2), 'c17f2', f2)
+  levels[3] = rec(gin.configurable('c17C3', module='c17')(C3), 'c17C3', c3_init)
+  gin.register('c17f4', module='c17')(f4)
+  levels[4] = rec(gin.get_configurable(f4), 'c17f4', f4)
 
   @gin.configurable('c17cons', module='c17')
   def cons(v=None):
     return v
 
-  @gin.register('c17K', module='c17')
   class K:
     def __init__(self, c=0):
       pass
@@ -315,23 +426,24 @@ def setup(ctx):
     @gin.register
     def c17meth(self, m=0):
       innermost()
+  meth_plain = K.__dict__['c17meth']
+  gin.register('c17K', module='c17')(K)
 
-  @gin.configurable('c17kwonly', module='c17')
   def kwonly(x, *, schema, strict):      # keyword-only parameters, none with a default
     innermost()
+  kwonly_c = gin.configurable('c17kwonly', module='c17')(kwonly)
 
-  @gin.configurable('c17varargs', module='c17')
   def varargs(a, b=1, *rest, flag=False, **extra):
     innermost()
+  varargs_c = gin.configurable('c17varargs', module='c17')(varargs)
 
-  @gin.register('c17Init', module='c17')
   class Init:
     def __init__(self, req, *, opt=None):
       innermost()
+  init_plain = Init.__init__
+  gin.register('c17Init', module='c17')(Init)
 
   # configurables whose repr (which Gin puts into the message) contains format-string metacharacters
-  import functools
-
   def pfetch(table, options=None, limit=10):
     innermost()
   part = gin.external_configurable(functools.partial(pfetch, 'users', options={'retries': 2, '{scope_info}': '%s %(x)s {0} {}'}), 'c17partial', module='c17')
@@ -354,102 +466,466 @@ def setup(ctx):
   class Model(metaclass=ReprMeta):
     def __init__(self, limit=10):
       innermost()
+  model_plain = Model.__init__
   model = gin.external_configurable(Model, 'c17Model', module='c17')
 
-  _S['hostile'] = [lambda: kwonly(1, schema='s', strict=True), lambda: varargs(1, 2, 3, 4, flag=True, z=5), lambda: gin.get_configurable(Init)(0),
-                   lambda: kwonly(x=2, schema=None, strict=False), lambda: part(), lambda: stage(limit=3), lambda: model()]
-  _S['hostile_names'] = ['kwonly', 'varargs', '__init__', 'kwonly', 'pfetch', '__call__', '__init__']
-  _S['levels'] = {1: f1, 2: f2, 3: C3, 4: gin.get_configurable(f4)}
+  _S['hostile'] = [rec(lambda: kwonly_c(1, schema='s', strict=True), 'c17kwonly', kwonly), rec(lambda: varargs_c(1, 2, 3, 4, flag=True, z=5), 'c17varargs', varargs),
+                   rec(lambda: gin.get_configurable(Init)(0), 'c17Init', init_plain), rec(lambda: kwonly_c(x=2, schema=None, strict=False), 'c17kwonly', kwonly),
+                   rec(lambda: part(), 'c17partial', pfetch), rec(lambda: stage(limit=3), 'c17stage', Stage.__call__), rec(lambda: model(), 'c17Model', model_plain)]
+
+  # ---- a configurable class that raises in __new__ (Gin decorates __new__ / the metaclass call)
+  class NewC:
+    def __new__(cls, p=0):
+      innermost()
+  newc_plain = NewC.__dict__['__new__'].__func__
+  gin.configurable('c17NewC', module='c17')(NewC)
+
+  class RegNew:
+    def __new__(cls, p=0):
+      innermost()
+  regnew_plain = RegNew.__dict__['__new__'].__func__
+  gin.register('c17RegNew', module='c17')(RegNew)
+  _S['new'] = [rec(lambda: NewC(), 'c17NewC', newc_plain), rec(lambda: NewC(p=3), 'c17NewC', newc_plain),
+               rec(lambda: gin.get_configurable(RegNew)(), 'c17RegNew', regnew_plain)]
+
+  # ---- subclasses of configurable classes: the configurable that runs (and is named) is the base class
+  class Base:
+    def __init__(self, p=0):
+      innermost()
+  base_init = Base.__init__
+  gin.configurable('c17Base', module='c17')(Base)
+
+  class Sub1(Base):
+    pass
+
+  class Sub2(Base):
+    def __init__(self, q=1):
+      super().__init__()
+
+  class RegBase:
+    def __init__(self, p=0):
+      innermost()
+  gin.register('c17RegBase', module='c17')(RegBase)
+
+  class SubReg(gin.get_configurable(RegBase)):
+    pass
+  _S['subclass'] = [rec(Sub1, 'c17Base', base_init), rec(Sub2, 'c17Base', Sub2.__init__, base_init), rec(SubReg, 'c17RegBase', RegBase.__init__)]
+
+  # ---- calls that leave positional parameters unbound while Gin has bindings of mixed types: the diagnostics branch for TypeErrors
+  def diag(a, b=1, c='x', d=0):
+    innermost()
+  diag_c = gin.configurable('c17diag', module='c17')(diag)
+
+  class DiagC:
+    def __init__(self, a, b=1, c='x', d=0):
+      innermost()
+  diagc_init = DiagC.__init__
+  gin.register('c17DiagC', module='c17')(DiagC)
+  _S['diag'] = [(rec(lambda: diag_c(1), 'c17diag', diag), "c17diag.b = 2\nc17diag.c = 'y'"),
+                (rec(lambda: diag_c(a=1), 'c17diag', diag), "c17diag.b = (1, 2)\nc17diag.c = None"),
+                (rec(lambda: diag_c(gin.REQUIRED), 'c17diag', diag), "c17diag.a = 'bound'\nc17diag.b = 2.5"),
+                (rec(lambda: gin.get_configurable(DiagC)(1), 'c17DiagC', diagc_init), "c17DiagC.b = {'k': 1}\nc17DiagC.c = 'y'")]
+
+  # ---- calls the interpreter itself rejects (missing / surplus arguments): (name, config, call through Gin, the same call of the undecorated function)
+  def miss(a, b=1, c='x'):
+    return (a, b, c)
+  miss_c = gin.configurable('c17miss', module='c17')(miss)
+
+  def miss2(a, b, c=1, *, k=None):
+    return (a, b, c, k)
+  miss2_c = gin.configurable('c17miss2', module='c17')(miss2)
+
+  class Miss3:
+    def __init__(self, a, b=1):
+      self.a = a
+  miss3_init = Miss3.__init__
+  gin.configurable('c17Miss3', module='c17')(Miss3)
+  cfg1 = "c17miss.b = 2\nc17miss.c = 'y'"
+  cfg2 = "c17miss2.c = 5\nc17miss2.k = 'z'"
+  _S['missing'] = [
+      ('c17miss', cfg1, lambda: miss_c(), lambda: miss(b=2, c='y')),
+      ('c17miss', cfg1, lambda: miss_c(1, 2, 3, 4), lambda: miss(1, 2, 3, 4)),
+      ('c17miss', cfg1, lambda: miss_c(1, zz=3), lambda: miss(1, b=2, c='y', zz=3)),
+      ('c17miss', '', lambda: miss_c(), lambda: miss()),
+      ('c17miss', "c17miss.c = @c17cons()", lambda: miss_c(), lambda: miss(c=None)),
+      ('c17miss2', cfg2, lambda: miss2_c(), lambda: miss2(c=5, k='z')),
+      ('c17miss2', cfg2, lambda: miss2_c(1), lambda: miss2(1, c=5, k='z')),
+      ('c17miss2', cfg2, lambda: miss2_c(b=1), lambda: miss2(b=1, c=5, k='z')),
+      ('c17Miss3', 'c17Miss3.b = 2', lambda: Miss3(), lambda: miss3_init(object.__new__(Miss3), b=2)),
+  ]
+
+  assert meth_plain.__code__.co_name == 'c17meth' and newc_plain.__code__.co_name == '__new__' and c3_init.__code__.co_name == '__init__'
+  _S['levels'] = levels
   _S['cons'] = cons
-  _S['K'] = K
+  _S['method'] = rec(lambda: gin.get_configurable(K)().c17meth(), 'c17meth', meth_plain)
   _S['instances'] = builtin_instances()
 
 
 def iter_cases(ctx, rng, n):
   inst = _S['instances']
   for i in range(n):
-    yield {'which': i % len(inst), 'depth': rng.choice([1, 1, 2, 3, 4]), 'site': rng.choice(['direct', 'direct', 'scoped', 'reference', 'method', 'hostile-signature']),
-           'hostile': rng.randrange(7)}
+    depth = rng.choice([1, 1, 2, 3, 4])
+    site = rng.choice(SITES)
+    case = {'which': i % len(inst), 'depth': depth, 'site': site, 'hostile': rng.randrange(7), 'variant': rng.randrange(720)}
+    if site == 'scoped':
+      case['outer'] = rng.choice(['sa/sb', 'zqa', 'zqa/zqb/zqc'])
+    else:
+      case['outer'] = rng.choice([None, None, None, 'zqo', 'zqo/zqp'])
+    enter = {}
+    if site in CHAIN_SITES:
+      for lvl in range(1, depth):
+        if rng.random() < 0.35:
+          enter[str(lvl)] = rng.choice(['zq1', 'zq2/zq3', 'zq4', ''])      # '' clears the active scopes
+    case['enter'] = enter
+    if site == 'reference':
+      case['refscope'] = rng.choice(['rs', 'zqr', 'zqr/zqt', ''])
+    elif site == 'singleton':
+      case['refscope'] = rng.choice(['zqs', 'zqs/zqu'])
+    elif site == 'macro':
+      case['refscope'] = rng.choice(['', 'zqm'])
+    case['notes'] = rng.choice([0, 0, 0, 0, 0, 1, 2])
+    case['implicit'] = rng.random() < 0.15
+    case['twice'] = rng.random() < 0.15
+    yield case
 
 
-def public_attrs(e):
+# ---------------------------------------------------------------------------
+# the model: which configurables run (innermost first) in which active scope, and which body frames lie between the caller and the raise site
+
+
+def scope_enter(cur, s):
+  """gin.config_scope(s) entered while the scopes `cur` are active: a name extends, None / '' clears."""
+  return (cur + s.split('/')) if s else []
+
+
+def plan(case):
+  site, depth = case['site'], case['depth']
+  outer = scope_enter([], case.get('outer'))
+  enter = case.get('enter') or {}
+  levels = _S['levels']
+
+  def chain(top, cur):
+    lv, fr = [], []
+    for i in range(top, 0, -1):
+      if i != top and str(i) in enter:
+        cur = scope_enter(cur, enter[str(i)])
+      lv.append((levels[i]['name'], list(cur)))
+      fr += levels[i]['frames']
+    return lv[::-1], fr
+
+  p = {'cfg': None, 'extra': 0, 'extra_names': (), 'depth': 1}
+  if site in ('direct', 'scoped'):
+    p['call'] = levels[depth]['call']
+    p['levels'], p['frames'] = chain(depth, outer)
+    p['depth'] = depth
+  elif site in ('reference', 'singleton', 'macro'):
+    refscope = case.get('refscope') or ''
+    target = levels[depth]['name']
+    prefix = refscope + '/' if refscope else ''
+    if site == 'reference':
+      # a scoped reference runs in its own scopes (they replace the active ones); the consumer's own call has not started while its argument is
+      # evaluated: one location per *running* configurable
+      p['cfg'] = 'c17cons.v = [1, {"k": @%s%s()}]' % (prefix, target)
+      start = refscope.split('/') if refscope else outer
+      p['levels'], p['frames'] = chain(depth, start)
+    elif site == 'singleton':
+      p['cfg'] = 'c17cons.v = @%sgin.singleton()\n%sgin.singleton.constructor = @%s' % (prefix, prefix, target)
+      start = refscope.split('/')
+      p['levels'], p['frames'] = chain(depth, start)
+      p['levels'] = p['levels'] + [('singleton', start)]          # gin.singleton is a configurable that is running when its constructor raises
+      p['extra'], p['extra_names'] = 1, ('c17cons',)
+    else:
+      p['cfg'] = 'M17 = @%s%s()\nc17cons.v = (%%M17,)' % (prefix, target)
+      start = refscope.split('/') if refscope else ['M17']          # a macro is the configurable gin.macro in the scope of its name
+      p['levels'], p['frames'] = chain(depth, start)
+      p['extra'], p['extra_names'] = 2, ('macro', 'c17cons')          # grey: whether pending consumers are named
+    p['call'] = _S['cons']
+    p['depth'] = depth
+  else:
+    if site == 'method':
+      r = _S['method']
+    elif site == 'hostile-signature':
+      r = _S['hostile'][case['hostile'] % len(_S['hostile'])]
+    elif site == 'new-raises':
+      r = _S['new'][case['variant'] % len(_S['new'])]
+    elif site == 'subclass':
+      r = _S['subclass'][case['variant'] % len(_S['subclass'])]
+    elif site == 'diagnostics':
+      r, p['cfg'] = _S['diag'][case['variant'] % len(_S['diag'])]
+    else:
+      raise ValueError(site)
+    p['call'] = r['call']
+    p['levels'] = [(r['name'], outer)]
+    p['frames'] = list(r['frames'])
+  return p
+
+
+def scope_tokens(case):
+  """Distinctive scope components used anywhere in the case (they occur in no configurable's name or repr)."""
+  out = set()
+  for s in [case.get('outer'), case.get('refscope')] + list((case.get('enter') or {}).values()):
+    for t in (s or '').split('/'):
+      if t.startswith('zq'):
+        out.add(t)
+  if case['site'] == 'macro':
+    out.add('M17')
+  return out
+
+
+def drive(call, outer):
+  import gin
+  try:
+    if outer:
+      with gin.config_scope(outer):
+        call()
+    else:
+      call()
+  except BaseException as e:  # pylint: disable=broad-except
+    return e
+  return None
+
+
+# ---------------------------------------------------------------------------
+# observation of an exception's data
+
+
+def own_method(e, v):
+  """Bound methods of the exception itself (with_traceback, add_note, derive, ...): not data."""
+  return callable(v) and getattr(v, '__self__', None) is e
+
+
+def read_public(e, names=None):
+  if names is None:
+    names = [n for n in dir(e) if not n.startswith('_')] + [n for n in getattr(type(e), 'PROBE', ())]
   out = {}
-  for name in dir(e):
-    if name.startswith('_'):
-      continue
+  for name in names:
     try:
       v = getattr(e, name)
     except Exception:  # pylint: disable=broad-except
       continue
-    if callable(v):
+    if own_method(e, v):
       continue
     out[name] = v
   return out
 
 
-def same(a, b):
-  if a is b:
-    return True
+CONTAINERS = (tuple, list, dict, set, frozenset)
+
+
+def snap_copy(v, depth=0):
+  """Copy of the plain containers (so that a later in-place change shows); everything else by reference."""
+  t = type(v)
+  if depth > 8 or t not in CONTAINERS:
+    return v
+  if t is dict:
+    return {k: snap_copy(x, depth + 1) for k, x in v.items()}
+  if t in (set, frozenset):
+    return t(v)
+  return t(snap_copy(x, depth + 1) for x in v)
+
+
+def same(a, b, depth=0):
+  """Identity, or equal values of equal types at every level of plain containers."""
+  if type(a) is not type(b):
+    return False
+  t = type(a)
   try:
-    return bool(a == b) and type(a) is type(b)
+    if depth <= 8 and t in (tuple, list):
+      return len(a) == len(b) and all(same(x, y, depth + 1) for x, y in zip(a, b))
+    if depth <= 8 and t is dict:
+      if len(a) != len(b):
+        return False
+      kb = {k: k for k in b}
+      return all(k in kb and type(kb[k]) is type(k) and same(x, b[k], depth + 1) for k, x in a.items())
+    if depth <= 8 and t in (set, frozenset):
+      if a != b:
+        return False
+      mb = {x: x for x in b}
+      return all(type(mb[x]) is type(x) for x in a)
+    return a is b or bool(a == b)
   except Exception:  # pylint: disable=broad-except
     return False
 
 
+def snapshot(e):
+  """What the exception looks like when it is created, before anybody raises it."""
+  pub = read_public(e)
+  return {'refs': pub, 'copies': {k: snap_copy(v) for k, v in pub.items()}, 'str': str(e), 'cause': e.__cause__, 'suppress': e.__suppress_context__,
+          'notes': list(getattr(e, '__notes__', None) or [])}
+
+
+def differences(obj, snap):
+  """(name, read now, at creation) for every public attribute of the snapshot that reads differently on obj."""
+  bad = []
+  for name, ref in snap['refs'].items():
+    try:
+      g = getattr(obj, name)
+    except Exception as ge:  # pylint: disable=broad-except
+      bad.append((name, 'raises %r' % (ge,), ref))
+      continue
+    if not (same(g, ref) and same(g, snap['copies'][name])):
+      bad.append((name, g, snap['copies'][name]))
+  return bad
+
+
+def sstr(e):
+  """str(e) for reports (a caught exception whose str() raises is reported by the message check)."""
+  try:
+    return str(e)
+  except Exception as se:  # pylint: disable=broad-except
+    return '<str() raises %r>' % (se,)
+
+
+def tb_frames(tb):
+  out = []
+  while tb is not None:
+    out.append((tb.tb_frame.f_code.co_name, tb.tb_lineno))
+    tb = tb.tb_next
+  return out
+
+
+def subsequence(needles, hay):
+  """Index after the last needle if `needles` occur in `hay` in this order, else -1."""
+  pos = 0
+  for nd in needles:
+    try:
+      pos = hay.index(nd, pos) + 1
+    except ValueError:
+      return -1
+  return pos
+
+
+# ---------------------------------------------------------------------------
+# the oracle
+
+
+def check_message(ctx, what, text, base, p, case):
+  """text = base + one location per running configurable (innermost first), each naming the configurable and its active scope."""
+  if not ctx.check(text.startswith(base), 'message-not-extended-original', '%s: str(caught)=%r does not start with str(original)=%r' % (what, text[:200], base[:200])):
+    return
+  levels = p['levels']
+  parts = text[len(base):].split('In call to configurable')[1:]
+  n = len(parts)
+  if not ctx.check(len(levels) <= n <= len(levels) + p['extra'], 'message-levels',
+                   '%s: message names %d configurable calls, expected %d%s:\n%s' % (what, n, len(levels), ' (+ up to %d pending consumers)' % p['extra'] if p['extra'] else '', text[:700])):
+    return
+  tokens = scope_tokens(case)
+  j = 0
+  scopes_seen = set()
+  for seg in parts:
+    if j < len(levels) and levels[j][0] in seg:
+      name, scope = levels[j]
+      j += 1
+      scope_str = '/'.join(scope)
+      scopes_seen.add(scope_str)
+      if scope_str:
+        ctx.check(scope_str in seg, 'message-lacks-scope', '%s: the location of %r does not name its active scope %r: %s' % (what, name, scope_str, text[:500]))
+        if len(scope) == 1:
+          ctx.bucket('scope:single-component')
+      inactive = sorted(t for t in tokens if t not in scope and t in seg)
+      ctx.check(not inactive, 'message-names-inactive-scope',
+                '%s: the location of %r (active scope %r) names %r: %s' % (what, name, scope_str, inactive, text[:500]))
+    elif p['extra'] and any(x in seg for x in p['extra_names']):
+      continue
+    else:
+      break
+  ctx.check(j == len(levels), 'message-lacks-configurable-name',
+            '%s: the locations do not name the running configurables %r (innermost first): %s' % (what, [l[0] for l in levels], text[:700]))
+  if len(scopes_seen) > 1:
+    ctx.bucket('scope:per-level-differs')
+  if '' in (case.get('enter') or {}).values() and case['depth'] >= 2:
+    ctx.bucket('scope:cleared-inside')
+  if case['site'] in ('reference', 'singleton', 'macro') and case.get('refscope'):
+    ctx.bucket('scope:at-reference-site')
+
+
+def run_missing(ctx, case):
+  """The interpreter's own TypeError for a call Gin cannot complete: the caller must see that TypeError (as the same call of the undecorated function
+  raises it), extended by Gin, not an exception of the code that prepares Gin's diagnostics."""
+  import gin
+  name, cfg, call, plain = _S['missing'][case['variant'] % len(_S['missing'])]
+  ctx.bucket('site:missing-argument')
+  try:
+    plain()
+    expected = None
+  except TypeError as pe:
+    expected = pe
+  if expected is None:
+    raise AssertionError('the undecorated call did not raise')
+  gin.clear_config()
+  if cfg:
+    gin.parse_config(cfg)
+  caught = drive(call, case.get('outer'))
+  ctx.count('exceptions_compared')
+  ctx.fp('missing-argument', case['variant'] % len(_S['missing']), case.get('outer'))
+  what = 'call of %s rejected by the interpreter (%s)' % (name, str(expected)[:80])
+  if not ctx.check(caught is not None, 'exception-swallowed', '%s: no exception reached the caller' % what):
+    return
+  if not ctx.check(isinstance(caught, TypeError) and (type(caught).__name__, type(caught).__module__) == ('TypeError', 'builtins'), 'call-typeerror-replaced',
+                   '%s surfaced as %s: %s' % (what, type(caught).__name__, sstr(caught)[:300])):
+    return
+  ctx.check(same(caught.args, expected.args), 'call-typeerror-data-differs', '%s: args of the caught exception %r, of the interpreter\'s %r' % (what, caught.args, expected.args))
+  check_message(ctx, what, sstr(caught), str(expected), {'levels': [(name, scope_enter([], case.get('outer')))], 'extra': 0, 'extra_names': ()}, case)
+
+
 def run_case(ctx, case):
   import gin
+  site = case['site']
+  if site == 'missing-argument':
+    run_missing(ctx, case)
+    return
   bucket, factory = _S['instances'][case['which']]
   orig = factory()
+  for k in range(case.get('notes') or 0):
+    orig.add_note(NOTES[k])
+  snap = snapshot(orig)          # before anybody raises it
   ctx.bucket(bucket)
-  depth, site = case['depth'], case['site']
-  _S['state']['exc'] = orig
-  gin.clear_config()
-  expected_levels = depth
-  scope = ''
-  try:
-    if site == 'direct':
-      ctx.bucket('site:function' if depth != 3 else 'site:class-constructor')
-      _S['levels'][depth]()
-    elif site == 'scoped':
-      ctx.bucket('site:scoped')
-      scope = 'sa/sb'
-      with gin.config_scope(scope):
-        _S['levels'][depth]()
-    elif site == 'reference':
-      ctx.bucket('site:reference-evaluation')
-      gin.parse_config('c17cons.v = [1, {"k": @rs/c17f%d()}]' % min(depth, 2) if depth <= 2 else 'c17cons.v = @rs/c17f4()')
-      # the consumer's own call has not started while its argument is evaluated: one location per *running* configurable
-      expected_levels = min(depth, 2) if depth <= 2 else 4
-      depth = expected_levels
-      _S['cons']()
-    elif site == 'hostile-signature':
-      ctx.bucket('site:hostile-signature')
-      expected_levels = 1
-      depth = 1
-      _S['hostile'][case['hostile']]()
-    else:
-      ctx.bucket('site:method')
-      expected_levels = 1
-      depth = 1
-      gin.get_configurable(_S['K'])().c17meth()
-    ctx.check(False, 'exception-swallowed', '%s raised inside a configurable did not reach the caller' % type(orig).__name__)
-    return
-  except BaseException as e:  # pylint: disable=broad-except
-    caught = e
-  if depth >= 3 and site != 'method':
+  p = plan(case)
+  depth = p['depth']
+  if site == 'direct':
+    ctx.bucket('site:function' if depth != 3 else 'site:class-constructor')
+  else:
+    ctx.bucket({'scoped': 'site:scoped', 'reference': 'site:reference-evaluation', 'method': 'site:method', 'hostile-signature': 'site:hostile-signature',
+                'diagnostics': 'site:diagnostics-branch', 'new-raises': 'site:class-new-raises', 'subclass': 'site:subclass-of-configurable',
+                'singleton': 'site:singleton-constructor', 'macro': 'site:macro-to-raising-reference'}[site])
+  if depth >= 3:
     ctx.bucket('site:class-constructor')
-  ctx.bucket('depth:%d' % min(case['depth'], 4))
-  ctx.count('exceptions_compared')
+  ctx.bucket('depth:%d' % depth)
+  state = _S['state']
+  state['exc'], state['enter'], state['implicit'] = orig, case.get('enter') or {}, bool(case.get('implicit'))
+  gin.clear_config()
+  if p['cfg']:
+    gin.parse_config(p['cfg'])
   tname = type(orig).__name__
-  ctx.fp(tname, bucket, case['depth'], site, tuple(sorted(public_attrs(orig))))
-  ctx.sample({'class': tname, 'args': repr(orig.args)[:120], 'depth': case['depth'], 'site': site, 'caught_str': str(caught)[:300]}, cap=5)
+  ctx.fp(tname, bucket, depth, site, tuple(sorted(snap['refs'])), case.get('notes'), bool(case.get('implicit')), bool(case.get('twice')),
+         case.get('outer'), case.get('refscope'), tuple(sorted((case.get('enter') or {}).items())))
+  for attempt in range(2 if case.get('twice') else 1):
+    caught = drive(p['call'], case.get('outer'))
+    if not ctx.check(caught is not None, 'exception-swallowed', '%s raised inside a configurable did not reach the caller' % tname):
+      return
+    if attempt == 0:
+      ctx.sample({'class': tname, 'args': repr(orig.args)[:120], 'depth': depth, 'site': site, 'caught_str': sstr(caught)[:300]}, cap=5)
+    else:
+      ctx.bucket('mod:same-instance-twice')
+    judge(ctx, case, p, orig, snap, caught, 'second raise of the same instance: ' if attempt else '')
+  state['exc'] = None
 
+
+def judge(ctx, case, p, orig, snap, caught, prefix):
+  site, depth = case['site'], p['depth']
+  tname = prefix + type(orig).__name__
+  ctx.count('exceptions_compared')
+  tb = tb_frames(caught.__traceback__)          # before the except clauses below re-raise it
+  untouched = differences(orig, snap)
+  if str(orig) != snap['str']:
+    untouched.append(('str()', str(orig), snap['str']))
   if not isinstance(orig, Exception):
     ctx.check(caught is orig, 'base-exception-not-passed-through', '%s (not an Exception) was replaced by %r' % (tname, caught))
+    ctx.check(not untouched, 'original-exception-modified', '%s (not an Exception): reads differently after passing through Gin (name, now, at creation): %r' % (tname, untouched[:6]))
     return
   # ---- class identity and except clauses
   if not ctx.check(isinstance(caught, type(orig)), 'exception-class-changed:' + mechanism(orig),
-                   '%s raised inside a configurable surfaced as %s: %s' % (tname, type(caught).__name__, str(caught)[:300])):
+                   '%s raised inside a configurable surfaced as %s: %s' % (tname, type(caught).__name__, sstr(caught)[:300])):
     return
   t = type(caught)
   ctx.check((t.__name__, t.__module__, t.__qualname__) == (type(orig).__name__, type(orig).__module__, type(orig).__qualname__), 'exception-class-name-differs',
@@ -468,6 +944,7 @@ def run_case(ctx, case):
     ctx.check(ok, 'except-clause-does-not-catch', 'except %s: does not catch the re-raised %s' % (klass.__name__, tname))
   if isinstance(orig, BaseExceptionGroup):
     try:
+      got = None
       try:
         raise caught
       except* ValueError as g:
@@ -477,45 +954,63 @@ def run_case(ctx, case):
       ctx.check(got == ['ValueError'], 'except-star-does-not-split', 'except* ValueError saw %r' % (got,))
     except BaseException as ee:  # pylint: disable=broad-except
       ctx.check(False, 'except-star-does-not-split', 'except* on the caught group failed: %r' % (ee,))
-  # ---- data
-  pa = public_attrs(orig)
-  bad = []
-  for name, v in pa.items():
-    ctx.count('attributes_compared')
-    try:
-      g = getattr(caught, name)
-    except Exception as ge:  # pylint: disable=broad-except
-      bad.append((name, 'raises %r' % (ge,), v))
-      continue
-    if not same(g, v):
-      bad.append((name, g, v))
+  # ---- data: every public attribute reads on the caught exception as it read on the original when that was created
+  ctx.count('attributes_compared', len(snap['refs']))
+  bad = differences(caught, snap)
   if bad:
     ctx.check(False, 'exception-attributes-differ:' + mechanism(orig, [b[0] for b in bad]),
-              '%s: attributes read differently on the caught exception (name, caught, original): %r' % (tname, bad[:6]))
+              '%s: attributes read differently on the caught exception (name, caught, original when created): %r' % (tname, bad[:6]))
   else:
     ctx.count('oracle_evals')
+  ctx.check(not untouched, 'original-exception-modified',
+            '%s: the original exception object reads differently after passing through Gin (name, now, at creation): %r' % (tname, untouched[:6]))
+  if any(callable(v) for v in snap['refs'].values()):
+    ctx.count('callable_attributes_compared')
   # ---- explicit chaining of the original (raise ... from ...)
-  if orig.__cause__ is not None or orig.__suppress_context__:
-    ctx.check(caught.__cause__ is orig.__cause__ and caught.__suppress_context__ == orig.__suppress_context__, 'exception-cause-lost',
-              '%s raised from %r: the caught exception has __cause__=%r __suppress_context__=%r' % (tname, orig.__cause__, caught.__cause__, caught.__suppress_context__))
-  # ---- traceback and message
-  frames = [f.name for f in traceback.extract_tb(caught.__traceback__)]
-  ctx.check('innermost' in frames, 'traceback-lost', '%s: traceback of the caught exception lacks the raising frame: %r' % (tname, frames))
+  if snap['cause'] is not None or snap['suppress']:
+    ctx.check(caught.__cause__ is snap['cause'] and caught.__suppress_context__ == snap['suppress'], 'exception-cause-lost',
+              '%s raised from %r: the caught exception has __cause__=%r __suppress_context__=%r' % (tname, snap['cause'], caught.__cause__, caught.__suppress_context__))
+  # ---- notes added by the raiser (they are part of what is displayed; Gin may add its own)
+  if snap['notes']:
+    ctx.bucket('mod:notes')
+    have = list(getattr(caught, '__notes__', None) or [])
+    shown = ''.join(traceback.format_exception_only(caught))
+    ctx.check(subsequence(snap['notes'], have) >= 0 and all(nt in shown for nt in snap['notes']), 'exception-notes-lost',
+              '%s: notes %r of the original; the caught exception has __notes__=%r and is displayed as %r' % (tname, snap['notes'], have, shown[-400:]))
+  # ---- the implicit context of the original (it was raised inside a handler) is still reached from what the caller holds, following the links that
+  # are displayed (__cause__ if set, else __context__ unless suppressed); not applicable when the original itself has an explicit cause / suppresses it
+  if case.get('implicit') and snap['cause'] is None and not snap['suppress']:
+    ctx.bucket('mod:implicit-context')
+    seen, x, found = set(), caught, False
+    while x is not None and id(x) not in seen and len(seen) < 64:
+      seen.add(id(x))
+      if type(x) is KeyError and x.args == (CONTEXT_KEY,):
+        found = True
+        break
+      x = x.__cause__ if x.__cause__ is not None else (None if x.__suppress_context__ else x.__context__)
+    ctx.check(found, 'exception-context-lost', '%s was raised while a KeyError was being handled: that context is not reached from the caught exception along '
+              'the displayed chain (__cause__=%r __suppress_context__=%r __context__=%r)' % (tname, caught.__cause__, caught.__suppress_context__, caught.__context__))
+  # ---- traceback
+  names = [f[0] for f in tb]
+  ctx.check('innermost' in names, 'traceback-lost', '%s: traceback of the caught exception lacks the raising frame: %r' % (tname, names))
   # the *original* traceback: every configurable body between the caller and the raise site is still there, outermost first
-  body = ['c17meth'] if site == 'method' else ([_S['hostile_names'][case['hostile']]] if site == 'hostile-signature' else [['f1', 'f2', '__init__', 'f4'][i] for i in range(depth)][::-1])
-  pos = [frames.index(b) if b in frames else -1 for b in body]
-  ctx.check(-1 not in pos and pos == sorted(pos) and frames.index('innermost') > max(pos), 'traceback-frames-missing',
-            '%s at depth %d via %s: traceback frames %r do not contain the bodies %r in call order' % (tname, depth, site, frames, body))
+  body = [f[0] for f in p['frames']]
+  end = subsequence(body, names)
+  if ctx.check(end >= 0 and 'innermost' in names[end:], 'traceback-frames-missing',
+               '%s at depth %d via %s: traceback frames %r do not contain the bodies %r in call order' % (tname, depth, site, names, body)):
+    raise_at = ('innermost', _S['raise_line'][bool(case.get('implicit'))])
+    ctx.check(subsequence(p['frames'] + [raise_at], tb) >= 0 and tb[-1] == raise_at, 'traceback-line-numbers',
+              '%s at depth %d via %s: traceback %r does not show the bodies at the lines of their statements %r and end in the raise statement %r'
+              % (tname, depth, site, tb, p['frames'], raise_at))
   if isinstance(orig, NO_MESSAGE_EXTENSION):
     ctx.count('message_extension_impossible_class_cannot_be_subclassed')
     return
-  text = str(caught)
-  base = str(orig)
-  ctx.check(text.startswith(base), 'message-not-extended-original', '%s: str(caught)=%r does not start with str(original)=%r' % (tname, text[:200], base[:200]))
-  n = text[len(base):].count('In call to configurable')
-  ctx.check(n == expected_levels, 'message-levels', '%s: message names %d configurable calls, expected %d:\n%s' % (tname, n, expected_levels, text[:600]))
-  if scope:
-    ctx.check("in scope '%s'" % scope in text, 'message-lacks-scope', '%s: message does not name the active scope %r: %s' % (tname, scope, text[:400]))
+  try:
+    text = str(caught)
+  except Exception as se:  # pylint: disable=broad-except
+    ctx.check(False, 'message-not-extended-original', '%s: str() of the caught exception raises %r (str(original)=%r)' % (tname, se, snap['str'][:200]))
+    return
+  check_message(ctx, tname, text, snap['str'], p, case)
 
 
 def mechanism(orig, names=None):
@@ -533,10 +1028,13 @@ def mechanism(orig, names=None):
   return 'other'
 
 
-LEVEL_TEXT = ('Runtime differential monitor: the probe keeps the original exception object; for every exception class of builtins and a set of hostile user '
-              'classes, raised at depth 1-4 through functions, class constructors, methods, scopes and reference evaluation, the object caught by the '
-              'caller is compared with the original (class by name, real except clauses over the whole MRO incl. except*, every public non-callable '
-              'attribute, raising frame in the traceback, message = original text + one location per level); BaseExceptions must be the same object.')
-LEVEL_NOTE = 'Trusted: attribute comparison by identity or == with equal type. Observed on CPython 3.12 only (exception classes and their C-level members vary by version).'
-TECHNIQUE = 'runtime differential monitor (caught exception vs original object) over all builtin exception classes and hostile user classes'
+LEVEL_TEXT = ('Runtime differential monitor: the probe keeps the original exception object and a snapshot of its public data taken when it is created; for every '
+              'exception class of builtins and a set of hostile user classes, raised at depth 1-4 through functions, class constructors (__init__ and __new__, '
+              'subclasses), methods, scopes (outside, between the levels, at the reference site), reference evaluation, singletons and macros, once or twice, '
+              'the object caught by the caller is compared with the snapshot (class by name, real except clauses over the whole MRO incl. except*, every public '
+              'attribute incl. callables and __getattr__-served ones with nested types, notes, cause, context, body frames and raise statement with line numbers, '
+              'message = original text + one location per level naming that level\'s configurable and active scope); BaseExceptions must be the same, unchanged '
+              'object; the interpreter\'s own TypeError for an incomplete call is compared with that of the undecorated call.')
+LEVEL_NOTE = 'Trusted: attribute comparison by identity or == with equal types at every level of plain containers. Observed on CPython 3.12 only (exception classes and their C-level members vary by version).'
+TECHNIQUE = 'runtime differential monitor (caught exception vs snapshot of the original object) over all builtin exception classes and hostile user classes'
 DESIGN_REF = 'DESIGN.md section 4, C17'
